@@ -8,6 +8,9 @@ stage 2  TLC emits the same domain with the three-valued expectation (sharded)
 stage 3  every emitted request is driven through the real HTTPConnection.request /
          HTTPConnectionPool.urlopen / PoolManager.request over the in-memory network (and, for header
          validity, HTTP2Connection.putheader); the outcome is compared with the emitted expectation
+stage 3b every refused request with short varying fields (and every refused seed) is also call 1 of a two-call history: the same
+         pool / PoolManager / (closed and re-used) HTTPConnection then sends a clean request, with the object's connection fresh,
+         closed by the server, or alive; TLC judges the bytes of call 2 by the per-call clause (Wire.tla section 9)
 stage 4  every execution (emitted domain + seeded random requests beyond the bound) is recorded as a
          trace (input symbols, raised or not, raw wire bytes tokenised into symbols) and judged by TLC
          (spec/Wire_Trace.tla, operator Wire!Judge = strict Parse of the bytes actually written)
@@ -27,9 +30,10 @@ HOST = "h"
 ALPHABET = ["CR", "LF", "NUL", "DEL", "SP", "HT", ":", "%", "a", "Z", "NA", "#", "?", "/"]
 NAMED = {"CR": "\r", "LF": "\n", "NUL": "\x00", "DEL": "\x7f", "SP": " ", "HT": "\t", "NA": "\xe9"}
 _BYTE2SYM = {13: "CR", 10: "LF", 0: "NUL", 127: "DEL", 32: "SP", 9: "HT"}
-COMBINED = ["InvAllOnRequest", "InvH1UnsafeIsH2Refused", "InvExpectTotal"]       # InvAllOnRequest = the first six, sharing Serialize/Parse
+TWO_CALLS = ["InvSecondCallUntouched", "InvKeptHeadIsCaught", "InvResidueShape"]      # Wire.tla section 9
+COMBINED = ["InvAllOnRequest", "InvH1UnsafeIsH2Refused", "InvExpectTotal"] + TWO_CALLS       # InvAllOnRequest = the first six, sharing Serialize/Parse
 INVARIANTS = ["InvParseSerializeIdentity", "InvRefuseIffUnrepresentable", "InvRefusalJudged", "InvTargetIsSafe",
-              "InvAutoOnlyWhenAbsent", "InvEncodeIdempotent", "InvH1UnsafeIsH2Refused", "InvExpectTotal"]
+              "InvAutoOnlyWhenAbsent", "InvEncodeIdempotent", "InvH1UnsafeIsH2Refused", "InvExpectTotal"] + TWO_CALLS
 
 MC_CFG = """SPECIFICATION Spec
 CONSTANTS
@@ -42,6 +46,7 @@ CONSTANTS
   PairLen = {pair}
   H2Len = {h2}
   MaxD = {d}
+  PairMaxLen = {pairlen}
   ShardK = {k}
   ShardS = {s}
   EmitOn = {emit}
@@ -147,6 +152,10 @@ def seeds() -> list:
         for m in ("GET / HTTP/1.1\r\nHost: e\r\n\r\nGET", "GET\r\nX-Injected:", "GET\n", "GET /x", "GET\t", "G\x00T", "get", "",
                   "PATCH", "M-SEARCH", "G\xe9T"):
             out.append(mkreq(level, method=m))
+        # a refused request that carries a secret before the header that gets it refused (call 1 of the two-call histories)
+        out.append(mkreq(level, method="DELETE", url="admin/users/1", hdrs=[("X-Token", "s3cret"), ("X-Bad", "a\r\nb")]))
+        out.append(mkreq(level, method="DELETE", url="admin/users/1", hdrs=[("X-Token", "s3cret"), ("X-Skip", None)]))
+        out.append(mkreq(level, method="DELETE", url="admin/users/1", hdrs=[("X-Token", "s3cret"), ("X-\xe9", "v")]))
     out.append(mkreq("conn", url="", slash=False))
     out.append(mkreq("conn", url="?a", slash=False))
     out.append(mkreq("conn", url="*", slash=False, method="OPTIONS"))
@@ -279,18 +288,20 @@ def h2_available() -> bool:
 # ------------------------------------------------------------------------------ stage 4: TLC judges
 
 def validate(traces):
-    """Batch validation by TLC.  Returns [(hard clause, exact?, class, refusal rules that apply)] per trace."""
+    """Batch validation by TLC.  Returns [(hard clause, exact?, class, refusal rules that apply, hard clause of call 2, model of
+    call 2's bytes)] per trace (the last two "n/a" for single calls)."""
     if not traces:
         return []
     doc = env_doc()
     doc.pop("seeds")
-    doc["traces"] = [{"req": t["req"], "raised": t["raised"], "wire": t["wire"], "h2": t["h2"]} for t in traces]
+    doc["traces"] = [dict({"req": t["req"], "raised": t["raised"], "wire": t["wire"], "h2": t["h2"]},
+                          **({"second": t["second"], "raised2": t["raised2"], "wire2": t["wire2"]} if "second" in t else {})) for t in traces]
     r = tlc.run("Wire_Trace", TRACE_CFG, workers=1, files={"traces.json": json.dumps(doc)},
                 env={"TRACE_FILE": "traces.json"}, timeout=7200)
     vs = [ln[1:-1].split("|")[1:] for ln in r.out.splitlines() if ln.startswith('"VERDICT|') and ln.endswith('"')]
-    if len(vs) != len(traces) or [v[0] for v in vs] != [str(i) for i in range(1, len(traces) + 1)] or any(len(v) != 5 for v in vs):
+    if len(vs) != len(traces) or [v[0] for v in vs] != [str(i) for i in range(1, len(traces) + 1)] or any(len(v) != 7 for v in vs):
         raise tlc.MachineryError(f"Wire_Trace produced {len(vs)} verdicts for {len(traces)} traces\n{r.out[-2000:]}")
-    return [(v[1], v[2] == "exact", v[3], [w for w in v[4].split("+") if w]) for v in vs]
+    return [(v[1], v[2] == "exact", v[3], [w for w in v[4].split("+") if w], v[5], v[6]) for v in vs]
 
 
 def nontrivial(req) -> bool:
@@ -317,7 +328,7 @@ def assess(items, origin):
     verdicts = validate(traces)
     res = {"n": len(items), "bad": [], "drift": [], "tally": {}, "nontrivial": set(), "samples": [], "known": []}
     findings = known.load("C10")
-    for (req, expect, ewire), t, (hard, exact, cls, why) in zip(items, traces, verdicts):
+    for (req, expect, ewire), t, (hard, exact, cls, why, _h2, _w2) in zip(items, traces, verdicts):
         if expect is not None and expect != cls:
             raise tlc.MachineryError(f"emitted expectation {expect} but the trace monitor computed {cls} for {req}")
         written = bool(t["wire"]) or (req["level"] == "h2" and not t["raised"])
@@ -366,8 +377,113 @@ def _describe(t, clause):
             f"raised={t['exc'] or None} wrote {text(t['wire'])!r}")
 
 
+# ------------------------------------------------------------------------------ two calls on one client object
+
+SOCKS = {"conn": ["fresh", "closed", "alive"], "pool": ["fresh", "closed", "alive"], "mgr": ["fresh", "closed", "alive"]}
+
+
+def execute_pair(r1, r2, sock) -> dict:
+    """A refused request (r1) and then an accepted one (r2) through the SAME connection / pool / manager object.
+    sock: state of the object's connection when r1 arrives - "fresh" (never connected), "closed" (the server answered an
+    earlier request with Connection: close), "alive" (kept alive after an earlier request).  A bare HTTPConnection is
+    close()d by the caller after the refusal, which is what makes it usable again."""
+    from urllib3.connection import HTTPConnection
+    from urllib3.connectionpool import HTTPConnectionPool
+    from urllib3.poolmanager import PoolManager
+    level = r1["level"]
+    seen = []
+    closing = net.Reply(net.http_response(200, b"", keepalive=False), close=True)
+
+    def responder(peer, request):
+        seen.append(request)
+        return closing if (sock == "closed" and len(seen) == 1) else _responder(peer, request)
+
+    n = net.Net(responder)
+
+    def snap():
+        return b"".join(bytes(n.peers[c].received) for c in sorted(n.peers))
+
+    def call(obj, req):
+        method, target = text(req["method"]), ("/" if req["slash"] else "") + text(req["url"])
+        headers, body = _headers(req), _body(req)
+        if level == "conn":
+            obj.request(method, target, body=body, headers=headers)
+            obj.getresponse().read()
+        elif level == "pool":
+            obj.urlopen(method, target, body=body, headers=headers, retries=False)
+        else:
+            obj.request(method, "http://" + HOST + target, body=body, headers=headers, retries=False)
+
+    out = {}
+    with warnings.catch_warnings():
+        warnings.simplefilter("ignore")
+        with n:
+            obj = (HTTPConnection(HOST, 80, timeout=5) if level == "conn" else
+                   HTTPConnectionPool(HOST, 80, timeout=5, retries=False, maxsize=1) if level == "pool" else
+                   PoolManager(timeout=5, retries=False, maxsize=1))
+            try:
+                if sock != "fresh":
+                    call(obj, mkreq(level, url="warm"))
+                for key_, req in (("1", r1), ("2", r2)):
+                    before = snap()
+                    exc = None
+                    try:
+                        call(obj, req)
+                    except tlc.MachineryError:
+                        raise
+                    except (Exception, net.HarnessStall) as ex:
+                        exc = ex
+                    after = snap()
+                    if not after.startswith(before):
+                        raise tlc.MachineryError("bytes of an earlier call changed")
+                    out[key_] = (exc, after[len(before):])
+                    if key_ == "1" and level == "conn":
+                        obj.close()          # the caller's way of making the connection object usable again
+            finally:
+                obj.close() if level != "mgr" else obj.clear()
+    (e1, w1), (e2, w2) = out["1"], out["2"]
+    return {"req": r1, "raised": e1 is not None, "exc": type(e1).__name__ if e1 is not None else "", "wire": tokenise(w1), "h2": [],
+            "second": r2, "raised2": e2 is not None, "exc2": type(e2).__name__ if e2 is not None else "", "wire2": tokenise(w2), "sock": sock}
+
+
+def assess_pairs(items):
+    """items: [(r1, r2, sock, kept, emitted wire2)]: execute, let TLC judge both calls, summarise."""
+    traces = [execute_pair(r1, r2, sock) for r1, r2, sock, _, _ in items]
+    verdicts = validate(traces)
+    res = {"n": len(items), "bad": [], "drift": [], "tally": {}, "nontrivial": set(), "samples": [], "known": []}
+    findings = known.load("C10")
+    for (r1, r2, sock, kept, ewire2), t, (hard, exact, cls, why, hard2, which2) in zip(items, traces, verdicts):
+        level = r1["level"]
+        for k in (f"pair:{level}/{sock}/{'head-pending' if kept else 'head-maybe-pending'}/{which2}",) + tuple(f"pair-rule:{level}/{w}" for w in why):
+            res["tally"][k] = res["tally"].get(k, 0) + 1
+        res["nontrivial"].add(hash(("pair", key(r1), sock)))
+        what = (f"{level} ({sock} connection): call 1 method={text(r1['method'])!r} target={'/' + text(r1['url'])!r} headers={_short(r1)['headers']} "
+                f"raised={t['exc'] or None} wrote {text(t['wire'])!r}; call 2 GET /pub raised={t['exc2'] or None} wrote {text(t['wire2'])!r}")
+        case = {"pair": True, "req": r1, "second": r2, "sock": sock, "origin": "emitted"}
+        if cls != "MustRefuse":
+            raise tlc.MachineryError(f"a pair was emitted for a request that need not be refused: {_short(r1)}")
+        if hard != "ok":
+            if len(res["bad"]) < 10:
+                res["bad"].append((hard, f"{hard} in call 1: " + what, case))
+            continue
+        if hard2 != "ok":
+            facts = {"level": level, "history": "refused-then-accepted-on-the-same-object", "call2_bytes": which2, "clause": "SecondCall:" + hard2}
+            f = known.match(findings, facts)
+            if f is not None:
+                res["known"].append((f["id"], f["what"]))
+            elif len(res["bad"]) < 10:
+                res["bad"].append(("SecondCall:" + hard2, f"the call after a refused call breaks the per-call clause ({hard2}): " + what, case))
+        elif which2 != "design" or t["wire2"] != ewire2:
+            if len(res["drift"]) < 3:
+                res["drift"].append("call 2 is one correct request but not the canonical bytes: " + what)
+        if len(res["samples"]) < 1 and kept:
+            res["samples"].append({"pair": what, "call2_clause": hard2, "call2_bytes": which2})
+    return res
+
+
 # ------------------------------------------------------------------------------ shards
 
+_PR = '<<"PR", "'
 _IN = '<<"IN", "'
 
 
@@ -438,7 +554,7 @@ def _random_shard(args):
 
 def run(rep):
     quick = rep.tier == "quick"
-    bounds = dict(m=2, u=3, n=2, v=3, pair=1, h2=2, d=3) if quick else dict(m=4, u=4, n=3, v=4, pair=1, h2=3, d=5)
+    bounds = dict(m=2, u=3, n=2, v=3, pair=1, h2=2, d=3, pairlen=1) if quick else dict(m=4, u=4, n=3, v=4, pair=1, h2=3, d=5, pairlen=2)
     h2 = h2_available()
     sd = seeds()
     envdoc = env_doc(sd)
@@ -456,9 +572,15 @@ def run(rep):
     # stage 1 + 2: one exhaustive run checks every invariant in every state and prints every explored request with the
     # spec's three-valued expectation (and, where it must be exactly this, the canonical bytes)
     J = max(1, int(os.environ.get("VERIF_JOBS") or 0) or os.cpu_count() or 4)
-    items = []
+    items, pairs = [], []
 
     def on_line(ln):
+        if ln.startswith(_PR):
+            if not ln.endswith('">>'):
+                raise tlc.MachineryError("wrapped emission line: " + ln[:200])
+            d = json.loads(_unq(ln[len(_PR):-3]))
+            pairs.append((d["req"], d["second"], d["kept"], d["wire2"]))
+            return True
         if not ln.startswith(_IN):
             return False
         if not ln.endswith('">>'):
@@ -467,7 +589,7 @@ def run(rep):
         items.append((d["req"], d["expect"], d["wire"]))
         return True
 
-    r1 = tlc.run("MC_Wire", MC_CFG.format(k=1, s=0, emit="TRUE", invs=invs + "\nINVARIANT EmitInv", **bounds), workers=J, files=files,
+    r1 = tlc.run("MC_Wire", MC_CFG.format(k=1, s=0, emit="TRUE", invs=invs + "\nINVARIANT EmitInv\nINVARIANT EmitPairs", **bounds), workers=J, files=files,
                  heap="3g", env={"WIRE_ENV": "wire_env.json"}, timeout=7200, on_line=on_line)
     rep.add_tlc(f"MC_Wire {bounds} seeds={len(sd)} invariants={INVARIANTS} (the first six evaluated as InvAllOnRequest)", r1)
     if r1.violated:
@@ -486,11 +608,19 @@ def run(rep):
     with mp.Pool(J) as pool:
         # stage 3/4 on the emitted domain, and beyond the bound
         fut = pool.map_async(_assess_chunk, [items[i:i + per] for i in range(0, len(items), per)])
+        # (refused call, accepted call) pairs on one client object, every socket state
+        pitems = [(r1, r2, sock, kept, w2) for r1, r2, kept, w2 in pairs for sock in SOCKS[r1["level"]]]
+        per_p = max(400, (len(pitems) + J - 1) // J)
+        fut_p = pool.map_async(assess_pairs, [pitems[i:i + per_p] for i in range(0, len(pitems), per_p)])
         nrand, per_r = (1600, 400) if quick else (64000, 4000)
         outs_r = pool.map(_random_shard, [(rep.seed * 100003 + i, per_r) for i in range(nrand // per_r)])
         outs = fut.get()
+        outs_p = fut_p.get()
     tally = {}
-    for o in outs + outs_r:
+    if not pairs or sum(o["n"] for o in outs_p) != len(pitems):
+        raise tlc.MachineryError(f"{len(pairs)} pairs emitted, {len(pitems)} planned, {sum(o['n'] for o in outs_p)} executed")
+    rep.extra["two_call_histories"] = len(pitems)
+    for o in outs + outs_r + outs_p:
         rep.evaluations += o["n"]
         rep.traces += o["n"]
         rep.nontrivial.update(o["nontrivial"])
@@ -500,7 +630,7 @@ def run(rep):
             rep.violation(clause, what, case)
         rep.known.extend(o["known"])
         rep.drift.extend(o["drift"])
-    for o in outs[:3] + outs_r[:1]:
+    for o in outs[:3] + outs_r[:1] + outs_p[:1]:
         for s in o["samples"][:2]:
             rep.sample(s, cap=8)
     executed = sum(o["n"] for o in outs)
@@ -530,14 +660,28 @@ def run(rep):
         for rname in rs:
             if not tally.get(f"rule:{lv}/{rname}"):
                 raise tlc.MachineryError(f"vacuous coverage: refusal rule {rname} never exercised at level {lv} (tally {tally})")
+    # two-call histories: every entry point x socket state with a head left pending by the refused call, and every
+    # header-level refusal rule as call 1
+    for lv in ("conn", "pool", "mgr"):
+        for sock in SOCKS[lv]:
+            if not any(k.startswith(f"pair:{lv}/{sock}/head-pending/") for k in tally):
+                raise tlc.MachineryError(f"vacuous coverage: no refused-then-accepted history at {lv}/{sock} with a pending head (tally {tally})")
+        for rname in ("BadName", "BreaksLine", "BadSkip", "BadMethod"):
+            if not tally.get(f"pair-rule:{lv}/{rname}"):
+                raise tlc.MachineryError(f"vacuous coverage: no two-call history whose first call is refused by {rname} at {lv} (tally {tally})")
     rep.exhaustive = True
 
 
 def replay(rep, path):
     with open(path) as fh:
         doc = json.load(fh)
-    req = doc["case"]["req"]
-    res = assess([(req, None, None)], "replay")
+    case = doc["case"]
+    req = case["req"]
+    if case.get("pair"):
+        tr = execute_pair(req, case["second"], case["sock"])      # (bytes of call 2 are compared with the design by TLC: Which2)
+        res = assess_pairs([(req, case["second"], case["sock"], True, tr["wire2"])])
+    else:
+        res = assess([(req, None, None)], "replay")
     rep.traces += 1
     rep.evaluations += 1
     for clause, what, case in res["bad"]:
